@@ -15,6 +15,11 @@ import (
 	"time"
 
 	dbm "github.com/cosmos/cosmos-db"
+	"github.com/cosmos/iavl"
+	iavldb "github.com/cosmos/iavl/db"
+	ics23 "github.com/cosmos/ics23/go"
+
+	cmtcrypto "github.com/cometbft/cometbft/proto/tendermint/crypto"
 	"github.com/cosmos/gogoproto/proto"
 
 	"cosmossdk.io/log/v2"
@@ -124,9 +129,11 @@ type Snapshot struct {
 	wk      *Worker
 }
 
-// builtStore is the real IAVL-backed rootmulti store of a snapshot (kept in a small per-worker cache).
+// builtStore holds the real IAVL trees of a snapshot plus the rootmulti-style commit info that
+// chains their roots into the app hash (kept in a small per-worker cache).
 type builtStore struct {
-	store  *rootmulti.Store
+	trees  map[string]*iavl.MutableTree
+	ci     storetypes.CommitInfo
 	proofs map[string][]byte
 }
 
@@ -261,7 +268,7 @@ func (w *World) snapshot(i int) *Snapshot {
 		kv[name] = lst
 	}
 	s := &Snapshot{KV: kv, sum: sum, wk: wk}
-	s.AppHash = s.built().store.LastCommitID().Hash
+	s.built()
 	if len(wk.snapCache) > 50000 {
 		wk.snapCache = map[[32]byte]*Snapshot{}
 	}
@@ -269,14 +276,47 @@ func (w *World) snapshot(i int) *Snapshot {
 	return s
 }
 
-// built returns the real store of the snapshot, rebuilding it when it fell out of the cache.
+// built returns the IAVL trees of the snapshot, rebuilding them when they fell out of the cache.
+// The trees are real cosmos/iavl trees holding exactly the snapshot's content at version 1 and
+// the app hash is the rootmulti commit-info hash over them; RootmultiAppHash rebuilds the same
+// snapshot through a complete rootmulti.Store and is used as a self-check of this shortcut.
 func (s *Snapshot) built() *builtStore {
 	wk := s.wk
 	if b, ok := wk.built[s.sum]; ok {
 		return b
 	}
-	db := dbm.NewMemDB()
-	rs := rootmulti.NewStore(db, log.NewNopLogger())
+	b := &builtStore{trees: map[string]*iavl.MutableTree{}, proofs: map[string][]byte{}}
+	b.ci.Version = 1
+	for _, name := range ProvableStores {
+		tree := iavl.NewMutableTree(iavldb.NewMemDB(), 0, true, iavl.NewNopLogger())
+		for _, e := range s.KV[name] {
+			if _, err := tree.Set(e[0], e[1]); err != nil {
+				panic(err)
+			}
+		}
+		b.trees[name] = tree
+		b.ci.StoreInfos = append(b.ci.StoreInfos, storetypes.StoreInfo{Name: name, CommitId: storetypes.CommitID{Version: 1, Hash: tree.WorkingHash()}})
+	}
+	hash := b.ci.Hash()
+	if s.AppHash != nil && string(hash) != string(s.AppHash) {
+		panic("ksim: snapshot rebuild changed the app hash")
+	}
+	if s.AppHash == nil {
+		s.AppHash = hash
+	}
+	if len(wk.builtOrder) >= 512 {
+		delete(wk.built, wk.builtOrder[0])
+		wk.builtOrder = wk.builtOrder[1:]
+	}
+	wk.built[s.sum] = b
+	wk.builtOrder = append(wk.builtOrder, s.sum)
+	return b
+}
+
+// RootmultiAppHash commits the snapshot's content through a complete rootmulti.Store (IAVL
+// stores mounted by name, Commit at version 1) and returns the resulting app hash.
+func (s *Snapshot) RootmultiAppHash() []byte {
+	rs := rootmulti.NewStore(dbm.NewMemDB(), log.NewNopLogger())
 	keys := map[string]*storetypes.KVStoreKey{}
 	for _, name := range ProvableStores {
 		k := storetypes.NewKVStoreKey(name)
@@ -292,18 +332,7 @@ func (s *Snapshot) built() *builtStore {
 			st.Set(e[0], e[1])
 		}
 	}
-	cid := rs.Commit()
-	if s.AppHash != nil && string(cid.Hash) != string(s.AppHash) {
-		panic("ksim: snapshot rebuild changed the app hash")
-	}
-	b := &builtStore{store: rs, proofs: map[string][]byte{}}
-	if len(wk.builtOrder) >= 96 {
-		delete(wk.built, wk.builtOrder[0])
-		wk.builtOrder = wk.builtOrder[1:]
-	}
-	wk.built[s.sum] = b
-	wk.builtOrder = append(wk.builtOrder, s.sum)
-	return b
+	return rs.Commit().Hash
 }
 
 // baseHashOf returns (cached) the hash of the immutable base of a store.
@@ -341,11 +370,22 @@ func (s *Snapshot) Proof(store string, key []byte) []byte {
 	if bz, ok := b.proofs[ck]; ok {
 		return bz
 	}
-	res, err := b.store.Query(&storetypes.RequestQuery{Path: "/" + store + "/key", Data: key, Height: 1, Prove: true})
+	tree := b.trees[store]
+	has, err := tree.Has(key)
 	if err != nil {
-		panic(fmt.Sprintf("snapshot query: %v", err))
+		panic(err)
 	}
-	mp, err := commitmenttypes.ConvertProofs(res.ProofOps)
+	var cp *ics23.CommitmentProof
+	if has {
+		cp, err = tree.GetMembershipProof(key)
+	} else {
+		cp, err = tree.GetNonMembershipProof(key)
+	}
+	if err != nil {
+		panic(fmt.Sprintf("snapshot proof: %v", err))
+	}
+	ops := &cmtcrypto.ProofOps{Ops: []cmtcrypto.ProofOp{storetypes.NewIavlCommitmentOp(key, cp).ProofOp(), b.ci.ProofOp(store)}}
+	mp, err := commitmenttypes.ConvertProofs(ops)
 	if err != nil {
 		panic(err)
 	}
